@@ -38,6 +38,8 @@ def generate(g, tier):
         args = [r.choice(pool) for _ in range(r.randint(1, 4))]
         if cmd in ('DEFAULT_DELAY', 'DEFAULTDELAY') and g.chance(0.05):
             args = ['5', '$DEFAULT_DELAY+1']          # the known evaluation-order finding
+        if g.chance(0.25):      # trailing blanks are part of the line in every spelling alike
+            args = [a + r.choice(['', ' ', '  ', '\t', ' \t']) for a in args]
         word = ('$' if dollar else '') + (cmd if g.chance(0.8) else cmd.lower())
         pre = 'VAR q 3\nFUNC f a,b\n    $STRING a+b\nFUNC z\n    STRING z\n' if g.chance(0.7) else ''
         wrap = r.choice([None, None, 'IF TRUE', 'REPEAT 2'])
